@@ -154,6 +154,8 @@ WellFormed(P) ==
      /\ ~HasNext(P.body)                                                        \* 4 next only in a decorator
      /\ AritySs(P, AllSs(P))                                                    \* 5 index arity
      /\ \A i, j \in 1..Len(P.decls) : i # j => P.decls[i].name # P.decls[j].name \* 6 no redeclaration
+     /\ defs \cap DeclNames(P) = {}                                              \*   ... by another kind of object either:
+     /\ ("constdup" \in DOMAIN P => P.constdup \notin DeclNames(P))               \*   a decorator, a pattern constant
      /\ DeclNames(P) \subseteq used                                             \* 7 every declaration used
      /\ NestedDecls(AllSs(P)) \subseteq used                                    \*   ... wherever it is declared
      /\ \A i \in 1..Len(P.pats) : ~P.pats[i].bad /\ ~P.pats[i].long             \* 8 9 regex valid, within the limit
@@ -205,10 +207,23 @@ Mutate(P0, class, s) ==
     [] class = 7 ->   \* too few index keys
          [prog |-> Anywhere(Ensure(P, {"gk"}), k, IncOf("gk", << SLit(<<"a">>) >>)),
           class |-> "wrong number of index keys", what |-> "gk[a]++ on a two-key metric"]
-    [] class = 8 ->   \* a redeclared name (same or another kind)
-         LET d == P.decls[(k % Len(P.decls)) + 1] IN
-         [prog |-> [P EXCEPT !.decls = @ \o << [d EXCEPT !.kind = IF Coin(s1, 1, 2) THEN d.kind ELSE "gauge"] >>],
-          class |-> "redeclared name", what |-> "second declaration of an existing name"]
+    [] class = 8 ->   \* a redeclared name: by a metric of the same or another kind, or by ANOTHER KIND OF OBJECT
+                      \* (a decorator / a pattern constant of that name, both used so that nothing else is wrong)
+         LET d == P.decls[(k % Len(P.decls)) + 1]  v == Ch(s1, 4) IN
+         IF v <= 2 THEN
+           [prog |-> [P EXCEPT !.decls = @ \o << [d EXCEPT !.kind = IF v = 1 THEN d.kind ELSE "gauge"] >>],
+            class |-> "redeclared name", what |-> "second declaration of an existing name"]
+         \* the metric of that name is declared and nothing else (were it used, its uses would be errors of their
+         \* own once the later definition has taken the name): the redeclaration is what must be reported
+         ELSE LET dup == [name |-> "dupx", kind |-> "counter", keys |-> <<>>, ty |-> "int", hidden |-> FALSE] IN
+         IF v = 3 THEN
+           [prog |-> [P EXCEPT !.decls = @ \o <<dup>>,
+                               !.decos = @ \o << [name |-> "dupx", body |-> << [n |-> "next"] >>] >>,
+                               !.body = @ \o << [n |-> "deco", name |-> "dupx", t |-> << [n |-> "stop"] >>] >>],
+            class |-> "redeclared name", what |-> "a decorator named like a declared metric (defined and used)"]
+         ELSE
+           [prog |-> [decls |-> P.decls \o <<dup>>, pre |-> P.pre, decos |-> P.decos, body |-> P.body, pats |-> P.pats, constdup |-> "dupx"],
+            class |-> "redeclared name", what |-> "a pattern constant named like a declared metric (defined and used)"]
     [] class = 9 ->   \* an unused declaration
          [prog |-> [P EXCEPT !.decls = @ \o << [name |-> "unused1", kind |-> "counter", keys |-> IF Coin(s1, 1, 2) THEN <<>> ELSE <<"k">>,
                                               ty |-> "int", hidden |-> Coin(Rnd(s1), 1, 2)] >>],
